@@ -30,6 +30,9 @@ func main() {
 		for _, id := range eng.IDs() {
 			fmt.Println(id)
 		}
+	case "racechild":
+		// free-running pass of the C20 thread bodies (this binary is built with -race)
+		eng.Lookup("C20").Run([]byte(`{"part":"race-child"}`))
 	case "worker":
 		os.Exit(eng.WorkerMain(os.Args[2]))
 	case "replay":
